@@ -74,6 +74,14 @@ Theorem C17_unflatten_rejects_unterminated : forall jk t bytes,
 Proof. exact c17_unflatten_rejects. Qed.
 Print Assumptions C17_unflatten_rejects_unterminated.
 
+(* F9 (domain boundary, not a finding): an embedded NUL truncates the flatten/unflatten round trip *)
+Theorem C17_nul_string_truncates : forall jk s t a b,
+  inv M s -> abs M s = a ++ 0 :: b -> nulfree a -> slen M s + 1 < LIM -> inv M t ->
+  flatten1 M s = abs M s ++ [0] /\
+  exists t', unflatten1 M TH PG OV jk true t (flatten1 M s) = (StOk, t') /\ abs M t' = a.
+Proof. exact c17_nul_string_truncates. Qed.
+Print Assumptions C17_nul_string_truncates.
+
 (* no size premise: Prealloc / ShrinkToFit keep the value for every argument (F27, F31 repaired) *)
 Theorem C17_prealloc_value_safe : forall jk s n,
   inv M s -> inv M (snd (prealloc M TH PG OV jk true s n)) /\ abs M (snd (prealloc M TH PG OV jk true s n)) = abs M s.
